@@ -2,9 +2,16 @@
    proofs/ and followed by Print Assumptions.  The shape switches come from
    coq/gen/GenC14.v (regenerated from the working tree on every run): the theorems
    below only type-check when dagrt.data.unify accepts Integer in both asserts
-   (fixes/C14_unify_symmetric.patch). *)
-From Coq Require Import List String Bool.
-From Dagrt Require Import GenC14 Unify KindInfer KindInferCfg UnifyProofs.
+   (fixes/C14_unify_symmetric.patch) and SymbolKindTable.set flags an insertion as a
+   change (fixes/C14_set_insert_changed.patch). *)
+From Coq Require Import List String Bool Permutation.
+From Dagrt Require Import GenC14 Unify KindInfer KindInferCfg UnifyProofs KindInferProofs
+  KindFinderProofs KindFinderExamples.
+
+(* Order independence at full strength, for the code as it is now (gen_cfg): the same
+   statements presented in another order give the same outcome (both runs fail, or both
+   return equal tables). *)
+Definition C14_full_statement : Prop := full_statement gen_cfg.
 
 Theorem C14_idem : forall k r, gen_unify k k = Ok r -> r = k.
 Proof. exact (unify_idem unify_usertype_accepts_int unify_array_accepts_int). Qed.
@@ -23,3 +30,25 @@ Theorem C14_assoc : forall a b c,
           (bind (gen_unify b c) (fun y => gen_unify a y)).
 Proof. exact unify_assoc. Qed.
 Print Assumptions C14_assoc.
+
+(* Two runs on permuted statement lists that both return a table, and in which no failed
+   unification was printed-and-ignored, return equal tables.  (wf_item: no empty product in
+   the flattened right-hand side; forced kinds are not None.) *)
+Theorem C14_order_independent_partial : forall fuel fuel' forced all all' T T',
+  Permutation all all' ->
+  (forall it, In it all -> wf_item it) ->
+  (forall p x k, In (p, x, k) forced -> k <> None) ->
+  run_queue gen_cfg fuel forced all = OTable T false ->
+  run_queue gen_cfg fuel' forced all' = OTable T' false ->
+  table_equiv T T'.
+Proof. exact (order_independent_partial_cfg set_reraises). Qed.
+Print Assumptions C14_order_independent_partial.
+
+(* The full statement is false of the code: a loop variable registered by a statement that does
+   not count as progress makes one order end in AssertionError and the other in a table. *)
+Theorem C14_order_independent_refuted : ~ C14_full_statement.
+Proof.
+  exact (full_statement_refuted unify_usertype_accepts_int unify_array_accepts_int
+           set_insert_marks_changed set_reraises).
+Qed.
+Print Assumptions C14_order_independent_refuted.
